@@ -138,6 +138,25 @@ def main():
         return go
     run_target('css-scraper', CSS, scrape(CSSScraper, 'text/css', 'http://h.example/a.css'), (), rnd, n, bad, stats)
     run_target('javascript-scraper', JS, scrape(JavaScriptScraper, 'application/javascript', 'http://h.example/a.js'), (), rnd, n, bad, stats)
+    # server-chosen charset labels: every codec name this interpreter knows (binary-transform codecs such as hex / base64 / zlib are NOT text encodings) + junk labels
+    import encodings.aliases, pkgutil, encodings
+    labels = sorted(set(encodings.aliases.aliases) | set(encodings.aliases.aliases.values()) | {m.name for m in pkgutil.iter_modules(encodings.__path__)}) + ['', 'x', '\x00', 'utf-8\x00', 'a' * 300, 'utf-8; q=1', '"utf-8"', 'none', 'undefined']
+    def scrape_cs(cls, ctype, url):
+        def go(label):
+            req = Request(url); resp = Response(200, 'OK'); resp.request = req
+            try: resp.fields['Content-Type'] = '%s; charset=%s' % (ctype, label.decode('latin-1'))
+            except Exception: return
+            resp.body = Body(io.BytesIO(b'body { background: url(x.png) } @import "y.css"; var a = "http://h.example/b.png"; ' + bytes(range(256))))
+            cls().scrape(req, resp)
+        return go
+    for cls, ctype, url in [(CSSScraper, 'text/css', 'http://h.example/a.css'), (JavaScriptScraper, 'application/javascript', 'http://h.example/a.js')]:
+        fn = scrape_cs(cls, ctype, url)
+        for lb in labels:
+            stats['charset-label'] = stats.get('charset-label', 0) + 1
+            try: fn(lb.encode('latin-1', 'replace'))
+            except Exception as e:
+                if len([b for b in bad if b['target'] == 'charset-label']) < 6:
+                    bad.append({'target': 'charset-label', 'input': repr(lb), 'problem': '%s with charset=%r: %s: %s escapes' % (cls.__name__, lb, type(e).__name__, str(e)[:80])})
     ui = URLInfo.parse('http://h.example/')
     run_target('robots-parser', ROBOTS, lambda b: (lambda p: (p.load_robots_txt(ui, b), p.can_fetch(ui, 'wpull')))(RobotsTxtPool()), (ValueError,), rnd, n, bad, stats)
     run_target('http-header-parser', HEADERS, lambda b: Response().parse(b) if b'\n' in b else None, (ProtocolError,), rnd, n, bad, stats)
